@@ -51,6 +51,12 @@ def scenario(args):
                 w.set_client(1, k, v)
         idle = int(kw.get("idle", 3.0) * tps)
         for t in range(idle):
+            if kw.get("reapply"):
+                # a game loop that re-applies its (unchanged) settings every frame, through the public setters: the idle link must behave as if it had not
+                conf = w.clients[1]["conf"]
+                cl.setKeepAliveInterval(conf["ka"])
+                cl.setMessageTimeout(conf["mt"])
+                cl.setConnectionTimeout(conf["ct"])
             w.tick()
         if kw.get("probe_mt"):
             # a send that can never be acknowledged: its callback must report failure after the (client's) message time-out
@@ -94,6 +100,10 @@ def run(ctx):
         for cut in (range(0, period, max(1, period // 3)) if q else range(period)):
             jobs.append((ctx.seed, dict(cf, idle=1.0, cut_after=cut)))
             names.append("cut@%d %s" % (cut, cf))
+    # the application re-applies its settings every frame on an idle link (12 s: longer than every time-out)
+    for cf in confs[:2] if q else confs:
+        jobs.append((ctx.seed, dict(cf, idle=12.0, reapply=True)))
+        names.append("idle, settings re-applied every frame %s" % cf)
     # unanswered connect, with and without callback, configured time-outs
     for cli_ct in ([0.25, 2.0] if q else [0.25, 1.0, 2.0, 3.5]):
         for cb in (False, True):
